@@ -1,13 +1,184 @@
 import LitexProofs.Mem
+import LitexProofs.Wishbone.Sram
+import LitexProofs.Wishbone.Conv
 /-
-  C07 — Wishbone adapters and memories are transparent to the master (flat byte-addressable memory).
+  C07 — Wishbone adapters and memories are transparent to the master: flat byte-addressable memory semantics.
+
+  Vocabulary (LitexModel/Wishbone/SramBus.lean, LitexModel/Mem.lean):
+  * `ins : List (Req × ω)` is an arbitrary cycle-by-cycle history of what the master drives (`Req`: cyc, stb, we,
+    adr, sel, dat_w, cti, bte — garbage allowed whenever it does not strobe) and of what the environment chooses
+    (`ω`: nothing for an SRAM, the slave's latency/garbage oracle for an adapter).
+  * `Classic m ins`: the master follows the classic handshake (a presented strobe is held unchanged until the
+    cycle in which `ack` is seen); idle gaps of any length, back-to-back requests, `cyc` without `stb` are free.
+  * `ops m f ins`: the bus cycles completed during the run (cycles with `cyc ∧ stb ∧ ack`), with the data
+    written or the data returned; `f` is the device's address decoding.
+  * `Consistent nb M0 history`: replayed in order on a byte memory starting from `M0`, every write updates
+    exactly its selected bytes and every read returned, on each selected lane, the current content —
+    by `mem_last_enabled_write_wins` that is the byte of the last write that enabled it, or the initial content.
+  * `AckOnlyStrobed m ins`: in no cycle of the run is `ack` given while no strobe is presented.
 -/
 namespace Litex.C07
-open Litex
+open Litex Litex.WbMem
 
 /-- The specification memory: replaying masked writes in order gives, at every byte, the data of the last write
     that enabled that byte, or the initial content. -/
 theorem mem_last_enabled_write_wins (init : Mem) (ws : List Mem.Write) (a : Nat) :
     init.applyAll ws a = Mem.lastEnabled init ws a := Mem.applyAll_eq_lastEnabled init ws a
+
+/-! ## SRAM, classic cycles -/
+
+/-- **`wishbone.SRAM` is a flat byte memory** (any width, any depth, any initial content): for every history of
+    a protocol-following master made of classic cycles (anything but `cti = 2` on a bursting bus), with
+    arbitrary gaps, the completed cycles are a consistent byte-memory history — reads return per selected byte
+    the last enabled write or the initial content, writes touch only the selected bytes of the addressed word —
+    and `ack` is never given without a strobe. -/
+theorem sram_refines_mem (c : SramCfg) (hd : 0 < c.depth) (hrw : c.readOnly = false) (init : List Byte)
+    (ins : List (Req × Unit)) (hm : Classic (sram c init) ins) (hc : ∀ i ∈ ins, Sram.NoBurst c i) :
+    Consistent c.nb (Mem.ofList (Sram.initMem c init)) (ops (sram c init) c.idx ins) ∧
+    AckOnlyStrobed (sram c init) ins := by
+  have h := refines_of_inv (sram c init) c.idx c.nb (Sram.keep c) (Sram.NoBurst c) (Sram.Inv c)
+    (fun s p M i hi hh hp => Sram.step_ok c hd init s p M i hi hh hp) ins (sram c init).init none _
+    (Sram.inv_init c init) hm hc
+  have hk : (opsFrom (sram c init) c.idx (sram c init).init ins).filter (Sram.keep c) =
+      opsFrom (sram c init) c.idx (sram c init).init ins := by
+    apply List.filter_eq_self.mpr; intro op _; simp [Sram.keep, hrw]
+  rw [hk] at h
+  exact h
+
+/-- **Read-only memories ignore writes**: every completed read of a `read_only` SRAM returns the initial content
+    on every selected lane, whatever writes the history contains. -/
+theorem sram_ro_ignores_writes (c : SramCfg) (hd : 0 < c.depth) (hro : c.readOnly = true) (init : List Byte)
+    (ins : List (Req × Unit)) (hm : Classic (sram c init) ins) (hc : ∀ i ∈ ins, Sram.NoBurst c i) :
+    (∀ op ∈ ops (sram c init) c.idx ins, op.we = false → op.readOk c.nb (Mem.ofList (Sram.initMem c init))) ∧
+    AckOnlyStrobed (sram c init) ins := by
+  have h := refines_of_inv (sram c init) c.idx c.nb (Sram.keep c) (Sram.NoBurst c) (Sram.Inv c)
+    (fun s p M i hi hh hp => Sram.step_ok c hd init s p M i hi hh hp) ins (sram c init).init none _
+    (Sram.inv_init c init) hm hc
+  refine ⟨?_, h.2⟩
+  have hr := (consistent_reads c.nb _ _ (by
+    intro op hop; have := (List.mem_filter.mp hop).2; simpa [Sram.keep, hro] using this)).mp h.1
+  intro op hop hwe
+  exact hr op (List.mem_filter.mpr ⟨hop, by simp [Sram.keep, hwe]⟩)
+
+/-- **One acknowledge per strobe phase**: a classic strobe presented while `ack` is low is acknowledged in the
+    very next cycle, and `ack` is low again in the cycle after an acknowledge — so with `sram_refines_mem`
+    (no ack without strobe) each request of a protocol-following master is acknowledged exactly once. -/
+theorem sram_one_ack_per_request (c : SramCfg) (init : List Byte) (s : SramState) (r : Req)
+    (hb : Sram.adrBurst c r = false) :
+    ((sram c init).next s (r, ())).ack = (r.active && !s.ack) := by
+  simp [sram, Sram.next, hb]
+
+/-! Non-vacuity: a 16-bit, 4-word SRAM; partial write (lane 1 only), read back, idle gap, full read. -/
+example :
+    let c : SramCfg := { nb := 2, depth := 4, aw := 3, readOnly := false, burst := false }
+    let w : Req := { cyc := true, stb := true, we := true, adr := 6, sel := [false, true], dat := [0x11, 0x22], cti := 0, bte := 0 }
+    let r : Req := { w with we := false, sel := [true, true], dat := [] }
+    let ins : List (Req × Unit) := [(w, ()), (w, ()), (Req.idle, ()), (r, ()), (r, ())]
+    Classic (sram c [1, 2, 3, 4, 5, 6, 7, 8]) ins ∧
+    ops (sram c [1, 2, 3, 4, 5, 6, 7, 8]) c.idx ins =
+      [{ adr := 2, we := true, sel := [false, true], dat := [0x11, 0x22] },
+       { adr := 2, we := false, sel := [true, true], dat := [5, 0x22] }] := by decide
+
+/-! ## Width converters in front of a byte memory with arbitrary latency
+
+  `latMem nb M0` is the abstract slave: a byte memory that acknowledges a presented strobe in a cycle chosen by
+  the environment (`Lat.ack`, part of the input history — every slave latency, including zero and unbounded
+  waits) and drives garbage (`Lat.junk`) on lanes it was not asked for. -/
+
+/-- **`wishbone.DownConverter` is transparent** — every ratio `2^cbits`, every slave width, every partial
+    `sel` (sub-words with no byte selected are skipped), every slave latency, every burst tag on the master
+    side: the master sees a flat byte memory and is never acknowledged without a strobe. -/
+theorem down_refines (c : DownCfg) (M0 : Mem) (ins : List (Req × Lat))
+    (hm : Classic ((downConv c).over (latMem c.nbs M0)) ins) :
+    Consistent c.nbm M0 (ops ((downConv c).over (latMem c.nbs M0)) id ins) ∧
+    AckOnlyStrobed ((downConv c).over (latMem c.nbs M0)) ins :=
+  (Down.refines c (latMem c.nbs M0) id id (fun t _ M => t = M) (fun _ _ _ => rfl) (fun _ => True) (fun _ => True)
+      (fun _ _ _ _ => trivial) (latMem_refines c.nbs M0)).run M0
+    ⟨Down.ratio_pos c, rfl, rfl⟩ ins hm (fun _ _ => trivial)
+
+/-- **`wishbone.UpConverter` is transparent** — every ratio, every narrow width (`nbm > 0` byte lanes),
+    every `sel`, every slave latency. -/
+theorem up_refines (c : UpCfg) (hpos : 0 < c.nbm) (M0 : Mem) (ins : List (Req × Lat))
+    (hm : Classic ((upConv c).over (latMem c.nbs M0)) ins) :
+    Consistent c.nbm M0 (ops ((upConv c).over (latMem c.nbs M0)) id ins) ∧
+    AckOnlyStrobed ((upConv c).over (latMem c.nbs M0)) ins :=
+  (Up.refines c (latMem c.nbs M0) id id (fun t _ M => t = M) hpos
+      (fun a => by simp only [id]; rw [Nat.mul_comm]; exact (Nat.div_add_mod a c.ratio).symm)
+      (fun _ => True) (fun _ => True) (fun _ _ _ => trivial) (latMem_refines c.nbs M0)).run M0
+    rfl ins hm (fun _ _ => trivial)
+
+/-- The acknowledge a master gets through the down-converter is exactly the completion of its last sub-word
+    (slave acknowledge or skip while `count = ratio − 1`): one acknowledge per request. -/
+theorem down_ack_iff (c : DownCfg) (s : DownState) (r : Req) (rsp : Rsp) :
+    (Down.toMaster c s r rsp).ack = (r.active && (rsp.ack || Down.skip c s r) && Down.done c s) := rfl
+
+/-! ## Compositions with the real SRAM model (the SoC's usual stacks) -/
+
+theorem mod_split (ratio dm a k : Nat) (hk : k < ratio) (hdm : 0 < dm) :
+    (k + ratio * a) % (ratio * dm) = k + ratio * (a % dm) := by
+  have h1 : k + ratio * a = k + ratio * (a % dm) + ratio * dm * (a / dm) := by
+    have := Nat.div_add_mod a dm
+    calc k + ratio * a = k + ratio * (dm * (a / dm) + a % dm) := by rw [this]
+      _ = k + ratio * (a % dm) + ratio * dm * (a / dm) := by
+        rw [Nat.mul_add, Nat.mul_assoc]; omega
+  have h2 : k + ratio * (a % dm) < ratio * dm := by
+    have := Nat.mod_lt a hdm
+    calc k + ratio * (a % dm) < ratio + ratio * (a % dm) := by omega
+      _ = ratio * (a % dm + 1) := by rw [Nat.mul_add, Nat.mul_one, Nat.add_comm]
+      _ ≤ ratio * dm := Nat.mul_le_mul_left _ this
+  rw [h1, Nat.add_mul_mod_self_left, Nat.mod_eq_of_lt h2]
+
+/-- **`master → DownConverter → SRAM` is a flat byte memory** (`converter_over_sram`, narrowing direction).
+    The SRAM has `2^n = ratio · dm` words of the narrow width; the master sees `dm` wide words (addresses wrap
+    modulo `dm`).  Obtained by composing `Down.refines` with `Sram.refines` — no proof about the product. -/
+theorem down_over_sram_refines (c : DownCfg) (sc : SramCfg) (init : List Byte) (n dm : Nat)
+    (hnb : sc.nb = c.nbs) (hrw : sc.readOnly = false) (hnb0 : sc.burst = false)
+    (hdepth : sc.depth = 2 ^ n) (haw : n ≤ sc.aw) (hdm : sc.depth = c.ratio * dm)
+    (ins : List (Req × Unit)) (hm : Classic ((downConv c).over (sram sc init)) ins) :
+    Consistent c.nbm (Mem.ofList (Sram.initMem sc init)) (ops ((downConv c).over (sram sc init)) (· % dm) ins) ∧
+    AckOnlyStrobed ((downConv c).over (sram sc init)) ins := by
+  have hd : 0 < sc.depth := by rw [hdepth]; exact Nat.two_pow_pos n
+  have hdmpos : 0 < dm := by
+    rcases Nat.eq_zero_or_pos dm with h | h
+    · rw [h, Nat.mul_zero] at hdm; omega
+    · exact h
+  have hS := Sram.refines sc hd hrw init
+  rw [hnb] at hS
+  exact (Down.refines c (sram sc init) sc.idx (· % dm) (Sram.Inv sc)
+      (fun a k hk => by
+        simp only [Sram.idx_pow2 sc n hdepth haw, hdm]
+        exact mod_split c.ratio dm a k hk hdmpos)
+      (fun _ => True) (Sram.NoBurst sc) (fun _ _ _ _ => by simp [Sram.NoBurst, Sram.adrBurst, hnb0]) hS).run _
+    ⟨Down.ratio_pos c, rfl, Sram.inv_init sc init⟩ ins hm (fun _ _ => trivial)
+
+/-- **`master → UpConverter → SRAM` is a flat byte memory** (`converter_over_sram`, widening direction): the
+    master sees `ratio · 2^n` narrow words. -/
+theorem up_over_sram_refines (c : UpCfg) (hpos : 0 < c.nbm) (sc : SramCfg) (init : List Byte) (n : Nat)
+    (hnb : sc.nb = c.nbs) (hrw : sc.readOnly = false) (hnb0 : sc.burst = false)
+    (hdepth : sc.depth = 2 ^ n) (haw : n ≤ sc.aw)
+    (ins : List (Req × Unit)) (hm : Classic ((upConv c).over (sram sc init)) ins) :
+    Consistent c.nbm (Mem.ofList (Sram.initMem sc init))
+      (ops ((upConv c).over (sram sc init)) (fun a => (a / c.ratio % sc.depth) * c.ratio + a % c.ratio) ins) ∧
+    AckOnlyStrobed ((upConv c).over (sram sc init)) ins := by
+  have hd : 0 < sc.depth := by rw [hdepth]; exact Nat.two_pow_pos n
+  have hS := Sram.refines sc hd hrw init
+  rw [hnb] at hS
+  exact (Up.refines c (sram sc init) sc.idx _ (Sram.Inv sc) hpos
+      (fun a => by simp only [Sram.idx_pow2 sc n hdepth haw])
+      (fun _ => True) (Sram.NoBurst sc) (fun _ _ _ => by simp [Sram.NoBurst, Sram.adrBurst, hnb0]) hS).run _
+    (Sram.inv_init sc init) ins hm (fun _ _ => trivial)
+
+/-! Non-vacuity: 16-bit master over an 8-bit, 4-word SRAM (ratio 2).  Partial write of the upper byte of wide
+    word 1 (the lower sub-word is skipped: 3 cycles), then a full read of it (2 sub-word reads: 4 cycles). -/
+example :
+    let c : DownCfg := { nbs := 1, cbits := 1 }
+    let sc : SramCfg := { nb := 1, depth := 4, aw := 3, readOnly := false, burst := false }
+    let w : Req := { cyc := true, stb := true, we := true, adr := 1, sel := [false, true], dat := [0x11, 0x22], cti := 0, bte := 0 }
+    let r : Req := { w with we := false, sel := [true, true], dat := [] }
+    let ins : List (Req × Unit) := [(w, ()), (w, ()), (w, ()), (Req.idle, ()), (r, ()), (r, ()), (r, ()), (r, ())]
+    Classic ((downConv c).over (sram sc [5, 6, 7, 8])) ins ∧
+    ops ((downConv c).over (sram sc [5, 6, 7, 8])) (· % 2) ins =
+      [{ adr := 1, we := true, sel := [false, true], dat := [0x11, 0x22] },
+       { adr := 1, we := false, sel := [true, true], dat := [7, 0x22] }] := by decide
 
 end Litex.C07
